@@ -73,7 +73,7 @@ def check_instant(rm, rep, name, events, seen):
         for idx, attr, val, g in [s for s in ev.stores if s[1] == 'load_torque']:
             t = getattr(val, 'term', None)
             if t is None:
-                ok, why = False, 'non-numeric load torque'
+                ok, why = False, f'non-numeric load torque `{val!r}`'[:200]
                 continue
             atoms = {a for a in t.atoms()}
             if any(a.startswith('call:') or '.external_torque(' in a for a in atoms) and len(t.n.t) == 1 and t.d.is_const():
@@ -158,6 +158,9 @@ def check_instant(rm, rep, name, events, seen):
             t = getattr(val, 'term', None)
             if idx.c != 1 or t is None or not ctx.eq(t, want):
                 ok, why = False, f'E[{idx}].torque = `{ctx.show(t)[:120] if t is not None else val}`, specified driving - load'
+                # operands read through something the evaluator does not follow (attrgetter tables, dynamic getattr): not a verdict
+                if t is not None and any(('(' in a_ and a_ not in ctx.defs and not a_.startswith('E[')) for a_ in t.atoms()):
+                    why = 'Unk(text=' + why
         _once(rep, seen, ('net', L.func, ok, why), ok, 'C02.net', f'{L.func}:formula', why, loc=f'{mod}:{L.lineno}')
         cov = all(a.who.is_all() for a in ev.writes if a.attr == 'torque')
         _once(rep, seen, ('net-cov', L.func, cov), cov, 'C02.net', f'{L.func}:coverage',
